@@ -169,7 +169,8 @@ def cases(seed, tier, shard, nshards):
 
 
 def nows(s):
-    return re.sub(r'\s+', '', s)
+    # only the blanks TeX and HTML treat as layout (not Unicode's other white-space characters: they are text)
+    return re.sub(r'[ \t\r\n\f]+', '', s)
 
 
 def read_all(out, enc):
@@ -273,7 +274,8 @@ def run(case, st):
                     if not v:
                         continue
                     for m in MARK_RE.findall(v):
-                        if m in exp_of and nows(exp_of[m]) not in nows(v):
+                        # (link titles and alt texts are plain-text renderings whose white space -- Unicode's included -- is normalised)
+                        if m in exp_of and re.sub(r'\s+', '', exp_of[m]) not in re.sub(r'\s+', '', v):
                             bad.append(('attribute-value-alters-text', '%s: <%s %s=%r> carries marker %s but not its characters %r' % (n, tag, k, v[:80], m, exp_of[m])))
         # (iv) escape-high-chars: pure ASCII
         if case['escape']:
